@@ -156,7 +156,7 @@ def _snapshot(root):
     return snap
 
 
-VARIANTS = ["same", "crlf", "cr", "longer", "shorter", "bom", "trailing_space"]
+VARIANTS = ["same", "crlf", "crlf", "cr", "longer", "shorter", "bom", "trailing_space"]
 
 
 def source_variant(src, kind):
@@ -255,7 +255,7 @@ def roundtrip_shard(pio, seed, n):
     pairs = sorted((p, b) for b, p in pio.BOARD_TO_PLATFORM.items())
     case_st = st.fixed_dictionaries({
         "pair": st.sampled_from(pairs), "port": port_st, "libs": libs_st, "source": source_st,
-        "pre": st.integers(0, 2), "nested": st.integers(0, 1), "as_iter": st.booleans(), "pass_none": st.booleans(),
+        "pre": st.sampled_from([0, 1, 2, 2]), "nested": st.integers(0, 1), "as_iter": st.booleans(), "pass_none": st.booleans(),
         "prev": st.fixed_dictionaries({"variant": st.sampled_from(VARIANTS), "port": port_st, "libs": libs_st}),
     })
 
